@@ -334,6 +334,21 @@ for _k in ADDED_B10:
 for _k, _v in ADDED_B10.items():
     CLAIMED[_k]["text"] = CLAIMED[_k]["text"] + " " + _v
 
+ADDED_B15 = {
+    "C01": "Added after the fifteenth batch: C01.27 no answer is taken from ONE member of an intersection (no loop over the members of an AllOf payload leaves with a member-derived value, no find / next over it).",
+    "C02": "Added after the fifteenth batch: C02.23 (= C16.11) a definition name the runtime makes up for a structure derives from a collision-resistant digest, not from the 32-bit hash() - 1 known finding, executed under node (two unions whose 32-bit hashes coincide share their variant definitions; the first printed wins).",
+    "C03": "Added after the fifteenth batch: C03.21 a class with child validators hands back its input itself only where a test established that it is not an object; C03.22 the deep merge of parse results skips no key by name and uses no `in` on data (found and guards fix 7ff79df: {constructor: string} | {b: number} parsed {constructor: 'x'} to {}, executed under node before and after).",
+    "C04": "Added after the fifteenth batch: C04.12 the validator table of a discriminated union narrows the variants listed together to the entry's key (guards fix 3755d7e: a valid non-recursive union overflowed the printer's stack); C04.13 (= C09.19) a set-once slot - a setter that panics when called twice, found by shape - is reached at most once on any path through one processed export item, counting keyed wrappers whose key derives from export-specifier syntax and is not excluded by a guard (path counter over the typed HIR).",
+    "C05": "Added after the fifteenth batch: C05.16 an index signature's value type read as the type of ONE admitted key goes through make_optional (or sits under a finiteness guard on the key type).",
+    "C07": "Added after the fifteenth batch: C07.15 a semantic operator that calls the projections of two structural families (lists, mappings) evaluates each on every path to a value exit and each result reaches the returned value.",
+    "C08": "Added after the fifteenth batch: C08.16 no runtime class applies an own-only (hasOwnProperty-guarded) getter to the input; C08.17 the scope of a declaration's type parameters covers every converted part of the declaration (found and guards fix 774977d: `interface Child<T> extends Base<T>` failed to resolve T while the equivalent alias compiled).",
+    "C09": "Added after the fifteenth batch: C09.19 (= C04.13) set-once slots; C09.20 sibling agreement of registration routes - every function of the binder that registers an export payload variant registers it in the same namespaces (7 payloads; the one deviant was a genuine defect, fix 5edde90: an enum exported through an export list was a type only).",
+    "C13": "Added after the fifteenth batch: C13.13 a number literal is encoded with the shortest round-trip rendering only (allow-list of calls on the value in the number writer and its helpers; no arithmetic).",
+    "C16": "Added after the fifteenth batch: C16.10 no method of the printing context applies a function to a definition name and the export keeps the table's keys; C16.11 (= C02.23) made-up definition names derive from a collision-resistant digest - 1 known finding, executed under node.",
+}
+for _k, _v in ADDED_B15.items():
+    CLAIMED[_k]["text"] = CLAIMED[_k]["text"] + " " + _v
+
 NOT_APPLICABLE_REASON = {}
 
 
